@@ -1,16 +1,642 @@
-"""numpy model (shape algebra exact; element arithmetic over the reals) -- trusted base."""
+"""numpy model for arrays of concrete shape with symbolic elements (trusted base, DESIGN 2.4).
+
+Shape algebra is exact; element arithmetic is over the reals (floats treated as reals, NaN kept
+as the python float nan and propagated); a `None` element makes the array dtype=object.
+"""
 from __future__ import annotations
-import z3
+import ast, math, z3, itertools
 from .values import *
+from .ops import to_z3, pyclass_kind, num_kind, NOT_IMPLEMENTED
+
+NAN = float("nan")
+NEWAXIS = None
 
 
-def getitem(I, a, i):
-    raise Unsupported("ndarray indexing (model not loaded)")
+def is_nan(x):
+    return isinstance(x, float) and x != x
 
 
-def setitem(I, a, i, v):
-    raise Unsupported("ndarray item assignment (model not loaded)")
+def shape_of(d):
+    if isinstance(d, list):
+        if not d:
+            return (0,)
+        s0 = shape_of(d[0])
+        return (len(d),) + s0
+    return ()
+
+
+def flat(d):
+    if isinstance(d, list):
+        out = []
+        for x in d:
+            out.extend(flat(x))
+        return out
+    return [d]
+
+
+def build(shape, fl):
+    if not shape:
+        return fl[0]
+    if len(shape) == 1:
+        return list(fl[:shape[0]])
+    step = 1
+    for s in shape[1:]:
+        step *= s
+    return [build(shape[1:], fl[i * step:(i + 1) * step]) for i in range(shape[0])]
+
+
+def size(shape):
+    n = 1
+    for s in shape:
+        n *= s
+    return n
+
+
+def mk(data, dtype=None):
+    if dtype is None:
+        fl = flat(data) if isinstance(data, list) else [data]
+        if any(x is None or isinstance(x, (Obj, Opaque, str)) for x in fl):
+            dtype = "object"
+        elif fl and all(isinstance(x, bool) or (isinstance(x, SV) and x.ty == "bool") for x in fl):
+            dtype = "bool"
+        elif fl and all((isinstance(x, int) and not isinstance(x, bool)) or (isinstance(x, SV) and x.ty == "int") or isinstance(x, EnumVal) for x in fl):
+            dtype = "int"
+        else:
+            dtype = "float"
+    return NdArr(data=data, dtype=dtype, tail=shape_of(data))
+
+
+def ashape(a):
+    return a.tail if a.data is not None and isinstance(a.data, list) else ()
+
+
+def to_data(I, x, allow_ragged=False):
+    """python-level nested list of scalars from any array-like"""
+    if isinstance(x, NdArr):
+        if x.data is None:
+            raise Unsupported("symbolic-length ndarray in concrete-shape context")
+        return _copy(x.data)
+    if isinstance(x, (ListV, tuple)) or (isinstance(x, Obj) and x.tag in ("deque",)) or isinstance(x, (IterV, GenV)):
+        items = list(I.iterate(x))
+        rows = [to_data(I, y) for y in items]
+        shapes = {shape_of(r) if isinstance(r, list) else () for r in rows}
+        if len(shapes) > 1:
+            I.raise_py("ValueError", "setting an array element with a sequence. The requested array has an inhomogeneous shape")
+        return rows
+    if isinstance(x, EnumVal) and x.cls.is_intenum:
+        return x.value
+    return x
+
+
+def _copy(d):
+    return [_copy(x) for x in d] if isinstance(d, list) else d
+
+
+def asarray(I, x, dtype=None):
+    if isinstance(x, NdArr) and dtype is None:
+        return x
+    d = to_data(I, x)
+    dt = norm_dtype(dtype)
+    if dt in ("float", "int"):
+        fl = flat(d) if isinstance(d, list) else [d]
+        for v in fl:
+            if v is None:
+                I.raise_py("TypeError", "float() argument must be a string or a real number, not 'NoneType'")
+            if isinstance(v, (str, Obj, Opaque)) or pyclass_kind(v) == "str":
+                I.raise_py("ValueError", "could not convert to float")
+        if dt == "float":
+            d = _map(d, lambda v: float(v) if isinstance(v, (int, bool)) and not isinstance(v, float) else (SV(to_z3(v, "real"), "real") if isinstance(v, SV) and v.ty in ("int", "bool") else v))
+    return mk(d, dt)
+
+
+def norm_dtype(dt):
+    if dt is None:
+        return None
+    if isinstance(dt, str):
+        s = dt.lstrip("<>=|")
+        if s.startswith("f") or "float" in s:
+            return "float"
+        if s.startswith(("i", "u")) or "int" in s:
+            return "int"
+        if s.startswith("b") and "bool" in s or s == "?":
+            return "bool"
+        if s in ("object", "O"):
+            return "object"
+        return "float"
+    if isinstance(dt, ClassV):
+        return {"float": "float", "int": "int", "bool": "bool", "object": "object"}.get(dt.name, "float")
+    if isinstance(dt, Opaque):
+        h = str(dt.head)
+        if "float" in h:
+            return "float"
+        if "int" in h:
+            return "int"
+        if "bool" in h:
+            return "bool"
+        return "float"
+    return "float"
+
+
+def _map(d, f):
+    return [_map(x, f) for x in d] if isinstance(d, list) else f(d)
+
+
+def _zip(a, b, f):
+    if isinstance(a, list):
+        return [_zip(x, y, f) for x, y in zip(a, b)]
+    return f(a, b)
+
+
+def broadcast_to(I, d, shp, target):
+    """broadcast nested data `d` of shape shp to target shape"""
+    if shp == target:
+        return d
+    if len(shp) < len(target):
+        shp = (1,) * (len(target) - len(shp)) + shp
+        for _ in range(len(target) - len(shape_of(d) if isinstance(d, list) else ())):
+            d = [d]
+    for s, t in zip(shp, target):
+        if s != t and s != 1:
+            I.raise_py("ValueError", f"operands could not be broadcast together with shapes {shp} {target}")
+
+    def rec(x, sh, tg):
+        if not tg:
+            return x
+        if sh[0] == tg[0]:
+            return [rec(y, sh[1:], tg[1:]) for y in x]
+        return [rec(x[0], sh[1:], tg[1:]) for _ in range(tg[0])]
+    return rec(d, shp, target)
+
+
+def bshape(I, s1, s2):
+    n = max(len(s1), len(s2))
+    a = (1,) * (n - len(s1)) + tuple(s1)
+    b = (1,) * (n - len(s2)) + tuple(s2)
+    out = []
+    for x, y in zip(a, b):
+        if x == y or y == 1:
+            out.append(x)
+        elif x == 1:
+            out.append(y)
+        else:
+            I.raise_py("ValueError", f"operands could not be broadcast together with shapes {s1} {s2}")
+    return tuple(out)
+
+
+def scalar_op(I, op, x, y):
+    if is_nan(x) or is_nan(y):
+        if isinstance(op, (ast.Add, ast.Sub, ast.Mult, ast.Div, ast.Pow)):
+            return NAN
+    if x is None or y is None:
+        I.raise_py("TypeError", "unsupported operand type(s) for NoneType")
+    if isinstance(op, ast.Div):
+        # numpy: division by zero gives inf/nan with a warning, not an exception; contracts demand definedness
+        zy = None
+        if isinstance(y, SV):
+            if I.st.branch(to_z3(y, "real") == 0, "np-div0"):
+                I.st.event("np-division-by-zero")
+                return NAN
+        elif y == 0:
+            I.st.event("np-division-by-zero")
+            return NAN
+    return I.binop(op, x, y)
+
+
+def elementwise(I, op, a, b):
+    A = a if isinstance(a, NdArr) else None
+    B = b if isinstance(b, NdArr) else None
+    da = A.data if A is not None else to_data(I, a)
+    db = B.data if B is not None else to_data(I, b)
+    sa = shape_of(da) if isinstance(da, list) else ()
+    sb = shape_of(db) if isinstance(db, list) else ()
+    tg = bshape(I, sa, sb)
+    xa = broadcast_to(I, da, sa, tg)
+    xb = broadcast_to(I, db, sb, tg)
+    if isinstance(op, ast.cmpop):
+        res = _zip(xa, xb, lambda x, y: _cmp(I, op, x, y)) if tg else _cmp(I, op, xa, xb)
+        return mk(res, "bool") if tg else res
+    res = _zip(xa, xb, lambda x, y: scalar_op(I, op, x, y)) if tg else scalar_op(I, op, xa, xb)
+    if not tg:
+        return res
+    dt = "object" if "object" in ((A.dtype if A else None), (B.dtype if B else None)) else None
+    r = mk(res, dt)
+    if isinstance(op, ast.Div) and r.dtype == "int":
+        r.dtype = "float"
+    return r
+
+
+def _cmp(I, op, x, y):
+    if is_nan(x) or is_nan(y):
+        return isinstance(op, ast.NotEq)
+    return I.wrap_bool(I.compare(op, x, y))
+
+
+def getitem(I, a, idx):
+    if a.data is None:
+        raise Unsupported("indexing a symbolic-length ndarray")
+    if not isinstance(idx, tuple):
+        idx = (idx,)
+    if isinstance(idx[0] if idx else None, NdArr) and idx[0].dtype == "bool" and len(idx) == 1:
+        mask = idx[0].data
+        out = []
+        for row, m in zip(a.data, mask):
+            if I.st.branch(I.truth(m), "mask"):
+                out.append(row)
+        return mk(out, a.dtype)
+
+    def rec(d, ix):
+        if not ix:
+            return d
+        i, rest = ix[0], ix[1:]
+        if i is None:
+            return [rec(d, rest)]
+        if i is Ellipsis:
+            nrest = len([x for x in rest if x is not None])
+            depth = len(shape_of(d)) - nrest if isinstance(d, list) else 0
+            return rec(d, (slice(None),) * depth + rest)
+        if not isinstance(d, list):
+            I.raise_py("IndexError", "too many indices for array")
+        if isinstance(i, slice):
+            sl = I.conc_slice(i, len(d))
+            return [rec(x, rest) for x in d[sl]]
+        if isinstance(i, (ListV, NdArr, tuple)):
+            ii = list(I.iterate(i)) if not isinstance(i, NdArr) else flat(i.data)
+            return [rec(d[I.norm_index(j, len(d))], rest) for j in ii]
+        return rec(d[I.norm_index(i, len(d))], rest)
+    r = rec(a.data, idx)
+    if isinstance(r, list):
+        return mk(r, a.dtype)
+    return r
+
+
+def setitem(I, a, idx, v):
+    if a.data is None:
+        raise Unsupported("assignment into a symbolic-length ndarray")
+    if not isinstance(idx, tuple):
+        idx = (idx,)
+    if len(idx) == 1 and isinstance(idx[0], NdArr) and idx[0].dtype == "bool":
+        raise Unsupported("boolean mask assignment")
+    # positions selected
+    shp = a.tail
+    sel_axes = []
+    for ax, i in enumerate(idx):
+        if isinstance(i, slice):
+            sel_axes.append(list(range(shp[ax]))[I.conc_slice(i, shp[ax])])
+        elif isinstance(i, (ListV, tuple)):
+            sel_axes.append([I.norm_index(j, shp[ax]) for j in I.iterate(i)])
+        elif i is Ellipsis:
+            raise Unsupported("ellipsis assignment")
+        else:
+            sel_axes.append(I.norm_index(i, shp[ax]))
+    for ax in range(len(idx), len(shp)):
+        sel_axes.append(list(range(shp[ax])))
+    tshape = tuple(len(s) for s in sel_axes if isinstance(s, list))
+    dv = v.data if isinstance(v, NdArr) else to_data(I, v)
+    sv = shape_of(dv) if isinstance(dv, list) else ()
+    if len(sv) > len(tshape):
+        # leading 1-dims may be dropped
+        while len(sv) > len(tshape) and sv[0] == 1:
+            dv = dv[0]
+            sv = sv[1:]
+        if len(sv) > len(tshape):
+            I.raise_py("ValueError", f"could not broadcast input array from shape {sv} into shape {tshape}")
+    bv = broadcast_to(I, dv, sv, tshape)
+    fl = flat(bv) if tshape else [bv]
+    if a.dtype in ("float", "int"):
+        for x in fl:
+            if x is None:
+                I.raise_py("TypeError", "float() argument must be a string or a real number, not 'NoneType'")
+    lists = [s if isinstance(s, list) else [s] for s in sel_axes]
+    for pos, val in zip(itertools.product(*lists), fl):
+        d = a.data
+        for p in pos[:-1]:
+            d = d[p]
+        d[pos[-1]] = val
+
+
+def inplace(I, op, a, v):
+    r = elementwise(I, op, a, v)
+    if r.tail != a.tail:
+        I.raise_py("ValueError", "non-broadcastable output operand")
+    a.data = r.data
+    return a
 
 
 def attr(I, a, name):
-    raise Unsupported(f"ndarray.{name} (model not loaded)")
+    if name == "shape":
+        if a.data is None:
+            return (SV(a.n, "int"),) + tuple(a.tail)
+        return tuple(a.tail)
+    if name == "ndim":
+        return len(a.tail) + (1 if a.data is None else 0)
+    if name == "size":
+        return size(a.tail)
+    if name == "dtype":
+        return Opaque(f"dtype:{a.dtype}")
+    if name == "T":
+        return transpose(I, a)
+    m = METHODS.get(name)
+    if m is None:
+        raise Unsupported(f"ndarray.{name}")
+    return Builtin(f"ndarray.{name}", lambda i, args, kw: m(i, a, args, kw))
+
+
+def transpose(I, a):
+    if len(a.tail) < 2:
+        return a
+    if len(a.tail) != 2:
+        raise Unsupported("transpose of >2-d array")
+    n, m = a.tail
+    return mk([[a.data[i][j] for i in range(n)] for j in range(m)], a.dtype)
+
+
+def reduce_sum(I, xs):
+    acc = 0
+    first = True
+    for x in xs:
+        acc = x if first else scalar_op(I, ast.Add(), acc, x)
+        first = False
+    return acc if not first else 0.0
+
+
+def np_sum(I, a, axis=None):
+    a = asarray(I, a)
+    if axis is None:
+        return reduce_sum(I, flat(a.data))
+    return reduce_axis(I, a, axis, lambda xs: reduce_sum(I, xs))
+
+
+def reduce_axis(I, a, axis, f):
+    shp = a.tail
+    if axis < 0:
+        axis += len(shp)
+
+    def rec(d, ax):
+        if ax == 0:
+            if len(shape_of(d)) == 1:
+                return f(d)
+            # reduce over first axis of nested
+            inner = shape_of(d)[1:]
+            cols = [flat(x) for x in d]
+            red = [f([c[i] for c in cols]) for i in range(size(inner))]
+            return build(inner, red)
+        return [rec(x, ax - 1) for x in d]
+    r = rec(a.data, axis)
+    return mk(r) if isinstance(r, list) else r
+
+
+def sqrt(I, x):
+    if type(x) in (int, float, bool):
+        if is_nan(x):
+            return NAN
+        if x < 0:
+            return NAN
+        return math.sqrt(x)
+    z = to_z3(x, "real")
+    st = I.st
+    key = ("sqrt", z.get_id())
+    if key in st.ghost:
+        return st.ghost[key]
+    r = st.fresh("sqrt", z3.RealSort())
+    if st.branch(z < 0, "sqrt-negative"):
+        st.event("np-sqrt-negative")
+        return NAN
+    st.assume(z3.And(r >= 0, r * r == z))
+    v = SV(r, "real")
+    st.ghost[key] = v
+    return v
+
+
+def norm(I, a, axis=None):
+    a = asarray(I, a)
+    if axis is None:
+        return sqrt(I, reduce_sum(I, [scalar_op(I, ast.Mult(), x, x) for x in flat(a.data)]))
+    return reduce_axis(I, a, axis, lambda xs: sqrt(I, reduce_sum(I, [scalar_op(I, ast.Mult(), x, x) for x in xs])))
+
+
+def dot(I, a, b):
+    a, b = asarray(I, a), asarray(I, b)
+    sa, sb = a.tail, b.tail
+    M = ast.Mult()
+    if len(sa) == 1 and len(sb) == 1:
+        if sa != sb:
+            I.raise_py("ValueError", f"shapes {sa} and {sb} not aligned")
+        return reduce_sum(I, [scalar_op(I, M, x, y) for x, y in zip(a.data, b.data)])
+    if len(sa) == 2 and len(sb) == 1:
+        if sa[1] != sb[0]:
+            I.raise_py("ValueError", f"shapes {sa} and {sb} not aligned")
+        return mk([reduce_sum(I, [scalar_op(I, M, x, y) for x, y in zip(row, b.data)]) for row in a.data])
+    if len(sa) == 1 and len(sb) == 2:
+        if sa[0] != sb[0]:
+            I.raise_py("ValueError", f"shapes {sa} and {sb} not aligned")
+        return mk([reduce_sum(I, [scalar_op(I, M, a.data[k], b.data[k][j]) for k in range(sa[0])]) for j in range(sb[1])])
+    if len(sa) == 2 and len(sb) == 2:
+        if sa[1] != sb[0]:
+            I.raise_py("ValueError", f"shapes {sa} and {sb} not aligned")
+        return mk([[reduce_sum(I, [scalar_op(I, M, a.data[i][k], b.data[k][j]) for k in range(sa[1])]) for j in range(sb[1])]
+                   for i in range(sa[0])])
+    if len(sa) == 3 and len(sb) == 2:
+        return mk([dot(I, mk(x), b).data for x in a.data])
+    raise Unsupported(f"dot of shapes {sa} {sb}")
+
+
+def cross(I, a, b):
+    a, b = asarray(I, a), asarray(I, b)
+    if a.tail != (3,) or b.tail != (3,):
+        raise Unsupported("cross of non 3-vectors")
+    x, y = a.data, b.data
+    M, S = ast.Mult(), ast.Sub()
+    f = lambda p, q, r, s: scalar_op(I, S, scalar_op(I, M, p, q), scalar_op(I, M, r, s))
+    return mk([f(x[1], y[2], x[2], y[1]), f(x[2], y[0], x[0], y[2]), f(x[0], y[1], x[1], y[0])])
+
+
+def outer(I, a, b):
+    a, b = asarray(I, a), asarray(I, b)
+    return mk([[scalar_op(I, ast.Mult(), x, y) for y in flat(b.data)] for x in flat(a.data)])
+
+
+def m_copy(I, a, args, kw):
+    return NdArr(data=_copy(a.data), dtype=a.dtype, tail=a.tail) if a.data is not None else NdArr(a.rows, a.n, a.tail, a.dtype)
+
+
+def m_astype(I, a, args, kw):
+    return mk(_copy(a.data), norm_dtype(args[0]))
+
+
+def m_tolist(I, a, args, kw):
+    def rec(d):
+        return ListV([rec(x) for x in d]) if isinstance(d, list) else d
+    return rec(a.data)
+
+
+def m_reshape(I, a, args, kw):
+    shp = args[0] if len(args) == 1 and isinstance(args[0], tuple) else tuple(args)
+    fl = flat(a.data)
+    shp = list(shp)
+    if -1 in shp:
+        k = shp.index(-1)
+        rest = size([s for s in shp if s != -1])
+        if rest == 0 or len(fl) % rest:
+            I.raise_py("ValueError", f"cannot reshape array of size {len(fl)} into shape {tuple(shp)}")
+        shp[k] = len(fl) // rest
+    if size(shp) != len(fl):
+        I.raise_py("ValueError", f"cannot reshape array of size {len(fl)} into shape {tuple(shp)}")
+    return mk(build(tuple(shp), fl), a.dtype)
+
+
+METHODS = {"copy": m_copy, "astype": m_astype, "tolist": m_tolist, "reshape": m_reshape,
+           "flatten": lambda I, a, args, kw: mk(flat(a.data), a.dtype), "ravel": lambda I, a, args, kw: mk(flat(a.data), a.dtype),
+           "sum": lambda I, a, args, kw: np_sum(I, a, kw.get("axis", args[0] if args else None)),
+           "dot": lambda I, a, args, kw: dot(I, a, args[0]),
+           "any": lambda I, a, args, kw: I.wrap_bool(I.or_(*[I.truth(x) for x in flat(a.data)])),
+           "all": lambda I, a, args, kw: I.wrap_bool(I.and_(*[I.truth(x) for x in flat(a.data)])),
+           "__len__": lambda I, a, args, kw: a.tail[0],
+           "transpose": lambda I, a, args, kw: transpose(I, a),
+           "tobytes": lambda I, a, args, kw: Opaque("tobytes", (id(a),)),
+           }
+
+
+def install(I, mkcls, meth):
+    E = I.ext_models
+    nd = I.builtins["ndarray"]
+    E["numpy.ndarray"] = nd
+    E["numpy.nan"] = NAN
+    E["numpy.newaxis"] = None
+    E["numpy.pi"] = math.pi
+    E["numpy.inf"] = math.inf
+    for n in ("float32", "float64", "float16", "int64", "int32", "float_", "double", "single"):
+        E[f"numpy.{n}"] = Opaque(f"dtype:{'float' if 'float' in n or n in ('double', 'single') else 'int'}:{n}")
+    E["numpy.typing.ArrayLike"] = Opaque("ArrayLike")
+    T = "numpy: shape algebra exact; element arithmetic over the reals"
+
+    def reg(name):
+        def deco(fn):
+            E[f"numpy.{name}"] = Builtin(f"np.{name}", fn, T)
+            return fn
+        return deco
+
+    @reg("array")
+    def _array(i, a, k):
+        dt = k.get("dtype", a[1] if len(a) > 1 else None)
+        r = asarray(i, a[0], dt)
+        if isinstance(a[0], NdArr):
+            r = NdArr(data=_copy(r.data), dtype=r.dtype, tail=r.tail)
+        if not isinstance(r.data, list):
+            r.tail = ()
+        return r
+    E["numpy.asarray"] = Builtin("np.asarray", lambda i, a, k: asarray(i, a[0], k.get("dtype", a[1] if len(a) > 1 else None)), T)
+
+    def _full(i, shp, val, dt=None):
+        if isinstance(shp, int):
+            shp = (shp,)
+        shp = tuple(x.value if isinstance(x, EnumVal) else x for x in (shp if isinstance(shp, tuple) else tuple(i.iterate(shp))))
+        if not all(isinstance(x, int) for x in shp):
+            raise Unsupported("array allocation with symbolic shape (concrete-shape numpy model)")
+        r = NdArr(data=build(shp, [val] * size(shp)) if shp else val, dtype=norm_dtype(dt) or "float", tail=shp)
+        if size(shp) == 0:
+            r.data = build(shp, []) if len(shp) == 1 else [[] for _ in range(shp[0])] if shp[0] else []
+        return r
+
+    reg("empty")(lambda i, a, k: _full(i, a[0], i.st.fresh_sv("uninit", "real") if False else 0.0, k.get("dtype", a[1] if len(a) > 1 else None)))
+    reg("zeros")(lambda i, a, k: _full(i, a[0], 0.0, k.get("dtype", a[1] if len(a) > 1 else None)))
+    reg("ones")(lambda i, a, k: _full(i, a[0], 1.0, k.get("dtype", a[1] if len(a) > 1 else None)))
+    reg("full")(lambda i, a, k: _full(i, a[0], a[1], k.get("dtype", a[2] if len(a) > 2 else None)))
+    reg("zeros_like")(lambda i, a, k: _full(i, asarray(i, a[0]).tail, 0.0, k.get("dtype")))
+    reg("eye")(lambda i, a, k: mk([[1.0 if r == c else 0.0 for c in range(a[0])] for r in range(a[0])]))
+    reg("dot")(lambda i, a, k: dot(i, a[0], a[1]))
+    reg("matmul")(lambda i, a, k: dot(i, a[0], a[1]))
+    reg("cross")(lambda i, a, k: cross(i, a[0], a[1]))
+    reg("outer")(lambda i, a, k: outer(i, a[0], a[1]))
+    reg("sum")(lambda i, a, k: np_sum(i, a[0], k.get("axis", a[1] if len(a) > 1 else None)))
+    reg("sqrt")(lambda i, a, k: sqrt(i, a[0]) if not isinstance(a[0], NdArr) else mk(_map(a[0].data, lambda x: sqrt(i, x))))
+    reg("abs")(lambda i, a, k: i.call(i.builtins["abs"], [a[0]], {}) if not isinstance(a[0], NdArr) else mk(_map(a[0].data, lambda x: i.call(i.builtins["abs"], [x], {}))))
+    E["numpy.linalg.norm"] = Builtin("np.linalg.norm", lambda i, a, k: norm(i, a[0], k.get("axis")), T)
+
+    @reg("vstack")
+    def _vstack(i, a, k):
+        parts = [asarray(i, x) for x in i.iterate(a[0])]
+        rows = []
+        for p in parts:
+            rows.extend(p.data if len(p.tail) > 1 else [p.data])
+        if len({len(r) for r in rows}) > 1:
+            i.raise_py("ValueError", "all the input array dimensions except for the concatenation axis must match exactly")
+        return mk(rows)
+
+    @reg("append")
+    def _append(i, a, k):
+        arr, vals = asarray(i, a[0]), asarray(i, a[1])
+        axis = k.get("axis", a[2] if len(a) > 2 else None)
+        if axis is None:
+            return mk(flat(arr.data) + flat(vals.data))
+        if axis != 0:
+            raise Unsupported("np.append axis != 0")
+        if len(arr.tail) != len(vals.tail):
+            i.raise_py("ValueError", "all the input arrays must have same number of dimensions")
+        if arr.tail[1:] != vals.tail[1:]:
+            i.raise_py("ValueError", "all the input array dimensions except for the concatenation axis must match exactly")
+        dt = "object" if "object" in (arr.dtype, vals.dtype) else arr.dtype
+        return mk(_copy(arr.data) + _copy(vals.data), dt)
+
+    @reg("delete")
+    def _delete(i, a, k):
+        arr = asarray(i, a[0])
+        axis = k.get("axis", a[2] if len(a) > 2 else None)
+        if axis != 0:
+            raise Unsupported("np.delete axis != 0")
+        idx = a[1]
+        n = arr.tail[0]
+        if isinstance(idx, (ListV, tuple)):
+            js = sorted({i.norm_index(j, n) for j in i.iterate(idx)})
+        else:
+            js = [i.norm_index(idx, n)]
+        d = [r for p, r in enumerate(_copy(arr.data)) if p not in js]
+        r = mk(d, arr.dtype)
+        r.tail = (len(d),) + arr.tail[1:]
+        return r
+
+    @reg("where")
+    def _where(i, a, k):
+        if len(a) == 3:
+            c = asarray(i, a[0])
+            x = broadcast_to(i, to_data(i, a[1]), shape_of(to_data(i, a[1])) if isinstance(to_data(i, a[1]), list) else (), c.tail)
+            y = broadcast_to(i, to_data(i, a[2]), shape_of(to_data(i, a[2])) if isinstance(to_data(i, a[2]), list) else (), c.tail)
+            fl = [xx if i.st.branch(i.truth(cc), "np.where") else yy for cc, xx, yy in zip(flat(c.data), flat(x), flat(y))]
+            return mk(build(c.tail, fl))
+        raise Unsupported("np.where with one argument")
+
+    @reg("average")
+    def _average(i, a, k):
+        arr = asarray(i, a[0])
+        axis = k.get("axis", a[1] if len(a) > 1 else None)
+        w = k.get("weights")
+        if w is not None:
+            raise Unsupported("np.average with weights")
+        if axis is None:
+            fl = flat(arr.data)
+            if not fl:
+                i.st.event("np-mean-of-empty")
+                return NAN
+            return scalar_op(i, ast.Div(), reduce_sum(i, fl), float(len(fl)))
+        n = arr.tail[axis]
+        if n == 0:
+            i.st.event("np-mean-of-empty")
+            rest = arr.tail[:axis] + arr.tail[axis + 1:]
+            return mk(build(rest, [NAN] * size(rest))) if rest else NAN
+        return reduce_axis(i, arr, axis, lambda xs: scalar_op(i, ast.Div(), reduce_sum(i, xs), float(len(xs))))
+    E["numpy.mean"] = E["numpy.average"]
+
+    reg("any")(lambda i, a, k: METHODS["any"](i, asarray(i, a[0]), [], {}))
+    reg("all")(lambda i, a, k: METHODS["all"](i, asarray(i, a[0]), [], {}))
+    reg("isnan")(lambda i, a, k: is_nan(a[0]) if not isinstance(a[0], NdArr) else mk(_map(a[0].data, is_nan), "bool"))
+    reg("radians")(lambda i, a, k: i.binop(ast.Mult(), a[0], math.pi / 180))
+    reg("allclose")(lambda i, a, k: (_ for _ in ()).throw(Unsupported("np.allclose")))
+    for fn in ("arctan2", "arccos", "arctan", "sin", "cos", "linalg.svd", "linalg.inv", "random.rand", "linspace", "meshgrid",
+               "column_stack", "frombuffer", "fromiter", "argmin", "take", "max", "arange"):
+        E.setdefault(f"numpy.{fn}", Builtin(f"np.{fn}", (lambda name: lambda i, a, k: i.np_hook(name, a, k))(fn), T))
+
+    def np_hook(name, a, k):
+        h = I.st.ghost.get(("np", name))
+        if h is None:
+            raise Unsupported(f"no model for numpy.{name} in this unit")
+        return h(I, a, k)
+    I.np_hook = np_hook
